@@ -14,7 +14,8 @@
     coalesce_merges_text coalesce_keeps_events coalesce_idempotent
     xml_layer_tree xml_tree_wellformed xml_batching_irrelevant
     xml_errors_are_parseerror_with_line xml_undefined_entity_position
-    xml_html_entity_is_text xml_unencodable_chunk_escapes
+    xml_html_entity_is_text xml_errors_are_parseerror xml_unknown_encoding_is_parseerror
+    xml_source_failure_propagates xml_api_total
     html_stream_is_forest html_text_is_plain xml_text_is_plain
     endtag_closes_to_innermost_match endtag_without_match_closes_all void_endtag_ignored
     xml_layer_tree_merged events_determine_tree
@@ -23,7 +24,8 @@
     html_closers_take_last_position xml_text_position
     html_text_cutting_irrelevant xml_text_cutting_irrelevant
     html_api_total
-    xml_qname_of_expat_name_partial xml_plain_name xml_brace_uri_loses_its_brace
+    xml_qname_of_expat_name xml_qname_faithful_iff xml_plain_name xml_brace_uri_loses_its_brace
+    html_real_env_total real_env_strip_total lower_table_ascii lower_final_sigma
     html_event_kinds
     entity_table_resolves xml_html_entities_resolve merged_forest_is_normal
     open_tags_is_nesting_stack delivered_is_prefix_of_unbatched
@@ -36,6 +38,7 @@ import Genshi.Lemmas.ParsePos
 import Genshi.Lemmas.ParseSplit
 import Genshi.Lemmas.ParseKinds
 import Genshi.Lemmas.ParseState
+import Genshi.Lemmas.ParseEnv
 namespace Genshi.Props.C07
 open Genshi Genshi.Parse
 
@@ -240,6 +243,7 @@ theorem html_errors_are_parseerror (env : Env) (reads : List HtmlRead) (close : 
     | base n => simp [PyExc.isBase] at hb
     | exc n => rw [a1]; rfl
     | expat l c => rw [a1]; rfl
+    | codec l c => rw [a1]; rfl
 
 /-- `HTML(text)` = `Stream(list(HTMLParser(…)))`: the list is built only when nothing was raised -/
 def htmlCall (env : Env) (reads : List HtmlRead) (close : List (Item HtmlCb)) : Except Raised Stream :=
@@ -419,19 +423,29 @@ theorem xml_text_cutting_irrelevant (reads reads' : List XmlRead) (close close' 
     ((xmlParse reads close).2 = none → (xmlParse reads close).1 = (xmlParse reads' close').1) :=
   parse_mergeData_congr xmlData xmlHandler () _ _ close close' h
 
-/-- **Qualified names.** Expat reports a namespaced name as `uri}local`; the layer hands `QName` that
-    string. FULL STATEMENT (what "the same qualified names as an independent parser" needs):
-        ∀ uri local, '}' ∉ uri → uri ≠ [] → mkQName (uri ++ '}' :: local) = ⟨uri, local⟩
-    (Expat itself refuses URIs containing the separator `}`.)  Proved with the extra hypothesis that the
-    URI does not begin with `{` — `QName` strips leading braces (known finding C07-xml-brace-namespace,
-    witness `xml_brace_uri_loses_its_brace`). -/
-theorem xml_qname_of_expat_name_partial (uri loc : Str) (h1 : '}' ∉ uri) (h3 : uri ≠ [])
-    (h2 : uri.head? ≠ some '{') : mkQName (uri ++ '}' :: loc) = ⟨uri, loc⟩ :=
-  mkQName_expat_name uri loc h1 h2 h3
+/-- **Qualified names, exactly.** Expat reports a namespaced name as `uri}local` (it refuses URIs that
+    contain the separator `}`); the layer hands `QName` that string. For **every** such URI and every local
+    part — also one that contains `}`: only the first `}` separates — the qualified name has the local part
+    as it is and the URI without its leading `{`s as namespace (`QName` strips them: `qname.lstrip('{')`). -/
+theorem xml_qname_of_expat_name (uri loc : Str) (h1 : '}' ∉ uri) :
+    mkQName (uri ++ '}' :: loc) = ⟨lstripBrace uri, loc⟩ :=
+  mkQName_expat_name_exact uri loc h1
 
-/-- names without namespace are kept (XML names contain no braces) -/
-theorem xml_plain_name (s : Str) (h1 : '}' ∉ s) (h2 : s.head? ≠ some '{') : mkQName s = ⟨[], s⟩ :=
-  mkQName_plain_name s h1 h2
+/-- … so the name Expat reported is recovered — "the same qualified names as an independent parser" —
+    **exactly when** the URI does not begin with `{`. The other URIs are the class of the known finding
+    C07-xml-brace-namespace (witness `xml_brace_uri_loses_its_brace`); nothing else is excluded. -/
+theorem xml_qname_faithful_iff (uri loc : Str) (h1 : '}' ∉ uri) :
+    mkQName (uri ++ '}' :: loc) = ⟨uri, loc⟩ ↔ uri.head? ≠ some '{' := by
+  rw [xml_qname_of_expat_name uri loc h1, ← lstripBrace_eq_self_iff]
+  constructor
+  · intro h; exact congrArg QName.ns h
+  · intro h; rw [h]
+
+/-- names without namespace: the local name is the name without leading `{`s — the name itself for every
+    XML name (they contain no braces) -/
+theorem xml_plain_name (s : Str) (h1 : '}' ∉ s) :
+    mkQName s = ⟨[], lstripBrace s⟩ ∧ (s.head? ≠ some '{' → mkQName s = ⟨[], s⟩) :=
+  ⟨mkQName_plain_name_exact s h1, fun h2 => mkQName_plain_name s h1 h2⟩
 
 /-- the full statement is false of the model: for `<a xmlns="{u"/>` Expat reports START_NS `{u` and the
     element name `{u}a`; the START event carries the namespace `u` -/
@@ -508,13 +522,109 @@ theorem xml_html_entity_is_text :
     ([.start ⟨[], ['a']⟩ [], .text [Char.ofNat 160, 'x'] false, .end_ ⟨[], ['a']⟩], none) := by
   decide
 
-/-- Known finding C07-xml-surrogate, as far as the model can express it (a lone surrogate is not a
-    `Char`): when a `str` chunk cannot be encoded, the `UnicodeEncodeError` is not an `ExpatError`
-    and leaves `XMLParser` unconverted. -/
-theorem xml_unencodable_chunk_escapes :
-    xmlParse [.unencodable] [] =
-      ([], some (.propagate ['U','n','i','c','o','d','e','E','n','c','o','d','e','E','r','r','o','r'])) := by
+/-- what Expat and pyexpat raise on their own: an `ExpatError`, or the codec machinery's exception for an
+    encoding Python cannot provide -/
+def xmlTokenizerError : PyExc → Bool
+  | .expat _ _ => true
+  | .codec _ _ => true
+  | _ => false
+
+/-- `read()` does not fail and nothing but the tokenizer's own errors is raised during `Parse` -/
+def OnlyTokenizerErrors (reads : List XmlRead) (close : List (Item XmlCb)) : Prop :=
+  ∀ e, Item.raise e ∈ xmlItems reads close → xmlTokenizerError e = true
+
+/-- **xml_errors_are_parseerror.** Whatever Expat calls, in whatever batches: if the source can be read
+    and the handlers are genshi's own, the only thing that leaves `XMLParser` is `ParseError` — for text
+    that is not well formed (Expat's error, also for a lone surrogate, which reaches Expat as an invalid
+    byte sequence), for an undefined entity (`_handle_other`'s error) and for a declared encoding Python
+    cannot provide (`_parse`) — and it carries the line and column of the failure that came first. -/
+theorem xml_errors_are_parseerror (reads : List XmlRead) (close : List (Item XmlCb))
+    (hex : OnlyTokenizerErrors reads close) (r : Raised) (h : (xmlParse reads close).2 = some r) :
+    ∃ l c, r = .parseError l c ∧
+      (firstFailure (xmlItems reads close) = some (.expat l c) ∨ firstFailure (xmlItems reads close) = some (.codec l c)) := by
+  have h1 := (xml_errors_are_parseerror_with_line reads close).1
+  rw [h1] at h
+  cases hf : firstFailure (xmlItems reads close) with
+  | none => rw [hf] at h; simp at h
+  | some e =>
+    rw [hf] at h
+    simp only [Option.map_some, Option.some.injEq] at h
+    have htok : xmlTokenizerError e = true := by
+      rcases firstFailure_some _ e hf with hm | ⟨l, c, rfl⟩
+      · exact hex e hm
+      · rfl
+    cases e with
+    | expat l c => exact ⟨l, c, h.symm, .inl rfl⟩
+    | codec l c => exact ⟨l, c, h.symm, .inr rfl⟩
+    | exc n => simp [xmlTokenizerError] at htok
+    | base n => simp [xmlTokenizerError] at htok
+
+/-- `XML(text)` = `Stream(list(XMLParser(…)))`: the list is built only when nothing was raised -/
+def xmlCall (reads : List XmlRead) (close : List (Item XmlCb)) : Except Raised Stream :=
+  match xmlParse reads close with
+  | (s, none) => .ok s
+  | (_, some r) => .error r
+
+/-- **Totality of the XML parser, as the API shows it.** Whatever Expat calls and however the calls are batched, if
+    the source can be read and the handlers are genshi's own: `XML(text)` either returns the events the handler calls
+    enqueue, in order, with adjacent text merged — or raises `ParseError` with a line and column. No third outcome. -/
+theorem xml_api_total (reads : List XmlRead) (close : List (Item XmlCb)) (hex : OnlyTokenizerErrors reads close) :
+    (∃ s, xmlCall reads close = .ok s ∧ noAdjText s = true ∧
+        s = coalesce ((xmlItems reads close).flatMap xItemEvents)) ∨
+    (∃ l c, xmlCall reads close = .error (.parseError l c)) := by
+  unfold xmlCall
+  cases hp : xmlParse reads close with
+  | mk s err =>
+    cases err with
+    | none =>
+      left
+      have h1 := (xml_errors_are_parseerror_with_line reads close).1
+      rw [hp] at h1
+      have hf : firstFailure (xmlItems reads close) = none := by
+        cases hh : firstFailure (xmlItems reads close) with
+        | none => rfl
+        | some e => rw [hh] at h1; simp at h1
+      have h2 := xml_events_are_callbacks reads close hf
+      rw [hp] at h2
+      have h3 := (xml_batching_irrelevant reads reads close close rfl).2.2
+      rw [hp] at h3
+      exact ⟨s, rfl, h3, congrArg Prod.fst h2⟩
+    | some r =>
+      right
+      obtain ⟨l, c, hr, _⟩ := xml_errors_are_parseerror reads close hex r (by rw [hp])
+      exact ⟨l, c, by rw [hr]⟩
+
+/-- repaired defect C07-xmlparser-unknown-encoding on the model: `<?xml version="1.0" encoding="uf-8"?>`
+    in a byte source — the declaration is reported, then pyexpat lets the `LookupError` of the codec lookup
+    through; it leaves as `ParseError` at Expat's error position and nothing of the failing batch is delivered -/
+theorem xml_unknown_encoding_is_parseerror :
+    xmlParse [.chunk [.cb (.xmlDecl ['1','.','0'] (some ['u','f','-','8']) (-1)), .raise (.codec 1 30)]] [] =
+      ([], some (.parseError 1 30)) := by
   decide
+
+/-- what is *not* converted: an exception of the source's `read()` (or one a foreign handler raises) is no
+    statement about the document and leaves `XMLParser` as it is -/
+theorem xml_source_failure_propagates (n : Str) (pre : List (Item XmlCb)) (hpre : firstFailure pre = none)
+    (rest : List XmlRead) (close : List (Item XmlCb)) :
+    (xmlParse (.chunk pre :: .fail (.exc n) :: rest) close).2 = some (.propagate n) := by
+  rw [(xml_errors_are_parseerror_with_line _ _).1]
+  have : firstFailure (xmlItems (.chunk pre :: .fail (.exc n) :: rest) close) = some (.exc n) := by
+    simp only [xmlItems, List.map_cons, XmlReadG.toRead, List.flatMap_cons, Read.toItems, List.append_assoc]
+    induction pre with
+    | nil => simp [firstFailure]
+    | cons i pre ih =>
+      cases i with
+      | raise e => simp [firstFailure] at hpre
+      | cb cb =>
+        cases cb with
+        | default_ s' l' c' =>
+          simp only [firstFailure] at hpre
+          simp only [List.cons_append, firstFailure]
+          cases ho : handleOther s' l' c' with
+          | error e => simp [ho] at hpre
+          | ok evs => simp only [ho] at hpre; exact ih hpre
+        | _ => simp only [firstFailure] at hpre; simp only [List.cons_append, firstFailure]; exact ih hpre
+  rw [this]; rfl
 
 /-! ## positions
 
@@ -566,7 +676,61 @@ theorem xml_text_position :
     lineCount ['a', Char.ofNat 0x85, 'b', Char.ofNat 0x2028, '\n', '\n'] = 4 := by
   decide
 
+/-! ## the real environment
+
+`realEnv` (what `gdrv` runs): `stripentities` as modelled by work package `san`, Python's `str.lower` (generated
+per-character table and the final-sigma rule), the generated void table. -/
+
+/-- `stripentities` never raises (san's totality theorem): the hypothesis about `strip` is discharged -/
+theorem real_env_strip_total (v : Str) : ∃ r, realEnv.strip v = .ok r := stripReal_total v
+
+/-- **Totality in the real environment**: for every input the tokenizer can turn into callbacks, in any batches,
+    as long as `read()` and the tokenizer raise nothing but `Exception`s, `HTML(text)` returns a well-nested,
+    merged, void-closed forest stream or raises `ParseError` — no hypothesis about `stripentities` or `lower` left -/
+theorem html_real_env_total (reads : List HtmlRead) (close : List (Item HtmlCb))
+    (hex : (htmlItems reads close).all itemNoBase = true) :
+    (∃ s, htmlCall realEnv reads close = .ok s ∧ WellNested s ∧ noAdjText s = true ∧
+        (TagsOk reads close → voidClosed realEnv.void s = true) ∧
+        ∃ ns, okList ns = true ∧ flattenList ns = s) ∨
+    htmlCall realEnv reads close = .error (.parseError (-1) (-1)) :=
+  html_api_total realEnv reads close ⟨fun v e h => stripReal_noBase v e h, hex⟩
+
+/-- over the *generated* `str.lower` table: on ASCII it is ASCII lower-casing (`A`–`Z` + 32, nothing else moves) -/
+theorem lower_table_ascii :
+    ∀ n < 128, lowerChar (Char.ofNat n) = [if 65 ≤ n ∧ n ≤ 90 then Char.ofNat (n + 32) else Char.ofNat n] := by
+  decide +kernel
+
+/-- the one context rule of `str.lower`, over the generated classes: a capital sigma after a cased letter and
+    not before one is the final sigma — also across case-ignorable characters — otherwise the small sigma -/
+theorem lower_final_sigma :
+    pyLower [Char.ofNat 0x391, Char.ofNat 0x3A3] = [Char.ofNat 0x3B1, Char.ofNat 0x3C2] ∧
+    pyLower [Char.ofNat 0x391, Char.ofNat 0x3A3, Char.ofNat 0x391] = [Char.ofNat 0x3B1, Char.ofNat 0x3C3, Char.ofNat 0x3B1] ∧
+    pyLower [Char.ofNat 0x3A3] = [Char.ofNat 0x3C3] ∧
+    pyLower ['a', '.', Char.ofNat 0x3A3, '\'', '1'] = ['a', '.', Char.ofNat 0x3C2, '\'', '1'] ∧
+    pyLower ['1', Char.ofNat 0x3A3] = ['1', Char.ofNat 0x3C3] ∧
+    pyLower [Char.ofNat 0x130] = ['i', Char.ofNat 0x307] := by
+  decide +kernel
+
 /-! ## non-vacuity -/
+
+/-- hypotheses of `xml_errors_are_parseerror`: text, then Expat's own error in the second batch -/
+example : OnlyTokenizerErrors [.chunk [.cb (.startElement ['a'] [])], .chunk [.cb (.characterData ['x']), .raise (.expat 2 5)]] [] ∧
+    xmlParse [.chunk [.cb (.startElement ['a'] [])], .chunk [.cb (.characterData ['x']), .raise (.expat 2 5)]] [] =
+      ([.start ⟨[], ['a']⟩ []], some (.parseError 2 5)) := by
+  refine ⟨?_, by decide⟩
+  intro e he
+  simp only [xmlItems, List.map_cons, List.map_nil, XmlReadG.toRead, List.flatMap_cons, Read.toItems, List.flatMap_nil,
+    List.append_nil, List.cons_append, List.nil_append, List.mem_cons, List.not_mem_nil, or_false, Item.raise.injEq,
+    reduceCtorEq, false_or] at he
+  subst he; rfl
+
+/-- a URI that begins with a brace and a local part that contains the separator (`xml_qname_of_expat_name`) -/
+example : mkQName (['{','{','u'] ++ '}' :: ['a','}','b']) = ⟨['u'], ['a','}','b']⟩ := by decide
+
+/-- the end-tag rule in the real environment (`str.lower` from the generated table): `</B>` closes `b` and what is
+    open inside it -/
+example : htmlStep realEnv [['i'], ['b'], ['p']] (.endtag ['B']) = .ok ([['p']], [.end_ ⟨[], ['i']⟩, .end_ ⟨[], ['b']⟩]) := by
+  decide
 
 /-- `<p>a<br>b</i>c` with the text split over two reads: hypotheses of `html_events_wellnested`
     are met by a non-trivial parse -/
